@@ -299,7 +299,7 @@ class ApproxZipfDistribution
       -> double
   {
     if (pow_ == 0.0) return (1 + log(n) + log(n + 1)) * 0.5;          // NOLINT
-    return (pow(n + 1, pow_) + pow(n, pow_) - 2) / (2 * pow_) + 0.5;  // NOLINT
+    return (expm1(pow_ * log(n + 1)) + expm1(pow_ * log(n))) / (2 * pow_) + 0.5;  // NOLINT
   }
 
   /*############################################################################
